@@ -123,6 +123,14 @@ def check_rw(chk, tu):
                                'len@4, visited in ascending order: %r' % (imp, loads, want), site + ':iovec-layout')
                     # native call: same descriptor, same count
                     calls = [(n[7:], a) for n, a, l in p.events if n.startswith('extern:') and n[7:] in ('writev', 'readv', 'pwritev', 'preadv', 'pwrite', 'pread')]
+                    if count == 0 and not calls:
+                        # an empty vector may be answered without a native call (readv/writev with 0 segments transfer 0 bytes):
+                        # the stored count must then be the constant 0
+                        gst = [(a[0], offset_from(a[1], result), a[2]) for n, a, l in p.events if n == 'gstore']
+                        chk.expect(len(gst) == 1 and gst[0][0] == 32 and gst[0][1] == 0 and gst[0][2] == 0, 'R12.2', inst + ':result-count',
+                                   '%s answers an empty vector without a native call and stores %r; expected the count 0 as one u32 at '
+                                   'the result pointer' % (imp, gst), site + ':result')
+                        continue
                     okcall = len(calls) == 1 and calls[0][0].lstrip('p').startswith(native[:-1]) and calls[0][1][0] == 10 and calls[0][1][2] == count
                     chk.expect(okcall, 'R12.5', inst + ':native-call',
                                '%s performs %r; expected one %s on the descriptor\'s native fd with all %d segments'
